@@ -145,7 +145,7 @@ def outcome_vectors(model, mask, alphabet, restricted=False):
         yield {b: oc for b, oc in enumerate(combo) if oc is not None}
 
 
-def gen_histories(cfg, depth, alphabet, first=None, restricted=False):
+def gen_histories(cfg, depth, alphabet, first=None, restricted=False, cont=False):
     """DFS over the model: yields (history, expected_final) with history = list of [mask, outcomes|None]."""
     masks = seq.all_masks(len(cfg["shapes"]))
 
@@ -160,9 +160,10 @@ def gen_histories(cfg, depth, alphabet, first=None, restricted=False):
                     m2 = model.clone()
                     r = m2.apply(mask, oc)
                     ev = [list(mask), {str(k): list(v) for k, v in oc.items()}]
-                    if r is not None:
+                    if r is not None and not (cont and r[0] == "tolerance" and len(hist) + 1 < depth):
                         yield hist + [ev], r
                     else:
+                        # cont: the caller catches the tolerance error and keeps calling step()
                         yield from rec(m2, hist + [ev])
             else:
                 m2 = model.clone()
@@ -175,8 +176,10 @@ def gen_histories(cfg, depth, alphabet, first=None, restricted=False):
 def work(tier, seed):
     units = []
 
-    def add(kind, tol, freq, shapes, depth, alphabet, restricted=False, tag=""):
+    def add(kind, tol, freq, shapes, depth, alphabet, restricted=False, tag="", prec=None):
         cfg = mk_cfg(kind, tol, freq, shapes, seed)
+        if prec:
+            cfg = dict(cfg, prec_dtype=prec)
         for m in seq.all_masks(len(shapes)):
             units.append({"cfg": cfg, "depth": depth, "alphabet": alphabet, "first": m, "restricted": restricted, "tag": tag})
 
@@ -192,6 +195,9 @@ def work(tier, seed):
                 add(kind, tol, 2, SHAPES2, 5 if tol < 2 else 6, ["ok", "raise"], tag="count-f2")
         add(kind, 1, 1, SHAPES2, 2, ["ok", "raise", "nan", "inf"], tag="value")
         add(kind, 1, 1, SHAPES3, 2, ["ok", "raise"], tag="3p")
+        # factor matrices wider than the parameters (float64 vs float32): a NaN / Inf result must raise before the cast to
+        # the storage dtype can hide it
+        add(kind, 1, 1, SHAPES2, 2, ["ok", "nan", "inf"], tag="value-f64", prec="f64")
         # ignored dimension 0: the 1-D block has no Kronecker factor at all (nothing to compute at a refresh, never a
         # failure), the 2-D block has one
         for tol in (0, 1):
@@ -202,6 +208,16 @@ def work(tier, seed):
             for tol in (0, 1):
                 add(kind, tol, 1, SHAPES3, 3, ["ok", "raise"], restricted=True, tag="3p-r")
             add(kind, 0, 2, SHAPES2, 3, ["ok", "raise", "nan", "inf"], tag="value-f2")
+    # the caller catches the tolerance error and keeps stepping: every further failed refresh of that block raises again, a
+    # success resets, the step counter / schedule keep advancing
+    for kind in kinds:
+        for tol in (0, 1):
+            cfg = mk_cfg(kind, tol, 1, SHAPES2, seed)
+            for m in seq.all_masks(2):
+                units.append({"cfg": cfg, "depth": 3 if tier == "quick" else 4, "alphabet": ["ok", "raise"], "first": m, "restricted": tier == "thorough", "tag": "caught", "cont": True})
+        cfg = mk_cfg(kind, 0, 2, SHAPES2, seed)
+        for m in seq.all_masks(2):
+            units.append({"cfg": cfg, "depth": 4 if tier == "quick" else 5, "alphabet": ["ok", "raise"], "first": m, "restricted": True, "tag": "caught-f2", "cont": True})
     # two parameter groups with different tolerances (and hence separate step counters / schedules)
     for kind in kinds:
         for tol0, tol1 in ((0, 2), (2, 0), (1, 0)):
@@ -332,7 +348,7 @@ def stored(opt, params, b, soap):
     return list(sh.factor_matrices_eigenvectors if soap else sh.inv_factor_matrices)
 
 
-def run_history(cfg, hist, expected_final, poison=None):
+def run_history(cfg, hist, expected_final, poison=None, cont=False):
     """Execute hist = [[mask, outcomes|None], ...] on the real optimizer with the injector; check every step."""
     import torch
     from distributed_shampoo.shampoo_types import PreconditionerValueError
@@ -421,6 +437,8 @@ def run_history(cfg, hist, expected_final, poison=None):
                         if not torch.equal(m, o[1].to(m.dtype)):
                             msgs.append(f"{where}: stored matrix {f} of block {b} is not the successfully computed one")
             digests.append(common.h64(seq.visible_digest(opt, params), tuple(model.c)))
+            if cont and not msgs and exp is not None and raised is not None and exp[0] == "tolerance" and raised[0] == "tolerance":
+                continue  # the user catches the error and goes on: counters, schedule and stored matrices must stay consistent
             if msgs or raised is not None or exp is not None:
                 break
     return msgs[:4], digests
@@ -473,9 +491,11 @@ def run_unit(unit):
                 break
     else:
         first = unit["first"]
-        for hist, exp in gen_histories(cfg, unit["depth"], unit["alphabet"], first=first, restricted=unit.get("restricted", False)):
-            msgs, digests = run_history(cfg, hist, exp)
-            record(hist, msgs, digests)
+        cont = bool(unit.get("cont"))
+        for hist, exp in gen_histories(cfg, unit["depth"], unit["alphabet"], first=first, restricted=unit.get("restricted", False), cont=cont):
+            msgs, digests = run_history(cfg, hist, exp, cont=cont)
+            record(hist, msgs, digests, {"cont": True} if cont else None)
+            res["stats"]["histories_continued_after_raise"] = res["stats"].get("histories_continued_after_raise", 0) + int(cont)
             if exp is not None:
                 res["stats"]["expected_tolerance_raises" if exp[0] == "tolerance" else "expected_value_raises"] += 1
             fails = any(oc and any(x != "ok" for v in oc.values() for x in v) for _, oc in hist)
@@ -495,5 +515,5 @@ def replay(case):
     if case.get("overflow"):
         return run_overflow(case["cfg"], case["hist"])[0]
     p = case.get("poison")
-    msgs, _ = run_history(case["cfg"], case["hist"], None, poison=tuple(p) if p else None)
+    msgs, _ = run_history(case["cfg"], case["hist"], None, poison=tuple(p) if p else None, cont=bool(case.get("cont")))
     return msgs
